@@ -236,8 +236,35 @@ func (h *c14H) render(out string) string {
 		}
 		A = append(A, c14Join(row, ","))
 	}
-	return fmt.Sprintf("%s L=%s last=%d M=%s B=%s Q=%s A=%s t=%d h=%d", out, c14Join(L, ","), last, c14Join(M, ","),
-		c14Join(B, ";"), c14Join(Q, ";"), c14Join(A, ";"), int64(h.f.Time.Sub(BaseTime)), h.f.Height)
+	// sums over the lock objects as stored (h.snap was taken after the op)
+	sn := h.snap
+	var S, W, O, U []string
+	for d := 0; d < h.nD; d++ {
+		dd := d
+		S = append(S, h.sumLocks(sn, func(l c14Lock) bool { return l.denom == dd }).String())
+		var row []string
+		for _, p := range h.probes {
+			pp := p
+			row = append(row, h.sumLocks(sn, func(l c14Lock) bool { return l.denom == dd && l.dur >= pp }).String())
+		}
+		W = append(W, c14Join(row, ","))
+	}
+	for a := 0; a < h.nA; a++ {
+		var row []string
+		for d := 0; d < h.nD; d++ {
+			aa, dd := a, d
+			row = append(row, h.sumLocks(sn, func(l c14Lock) bool { return l.owner == aa && l.denom == dd }).String())
+		}
+		O = append(O, c14Join(row, ","))
+	}
+	for _, id := range sn.ids {
+		if l := sn.locks[id]; l.unl && l.end <= sn.now {
+			U = append(U, strconv.FormatUint(id, 10))
+		}
+	}
+	return fmt.Sprintf("%s L=%s last=%d M=%s B=%s Q=%s A=%s S=%s W=%s O=%s U=%s t=%d h=%d", out, c14Join(L, ","), last, c14Join(M, ","),
+		c14Join(B, ";"), c14Join(Q, ";"), c14Join(A, ";"), c14Join(S, ","), c14Join(W, ";"), c14Join(O, ";"), c14Join(U, "."),
+		int64(h.f.Time.Sub(BaseTime)), h.f.Height)
 }
 
 func c14CSV(s string) []int64 {
